@@ -69,9 +69,15 @@ def plan(tier, seed):
             accel = float(np.round(rng.uniform(8, 12), 2))
         else:
             accel = float(np.round(rng.uniform(1.5, 8), 2))
-        P.add("poisson", shape=shape, accel=accel,
-              calib=[int(pick(rng, [0, 0, int(rng.integers(1, 17))])) for _ in range(2)]
-              if rng.random() < 0.7 else [int(rng.integers(1, 17))] * 2,
+        calib = [int(pick(rng, [0, 0, int(rng.integers(1, 17))])) for _ in range(2)] \
+            if rng.random() < 0.7 else [int(rng.integers(1, 17))] * 2
+        if i % 8 == 7:
+            # very large calibration regions (corners reach beyond the inscribed ellipse):
+            # every calibration point is still sampled, cropped corners or not
+            f = [float(rng.uniform(0.55, 1.0)), float(rng.uniform(0.55, 1.0))]
+            calib = [max(1, int(f[0] * shape[0])), max(1, int(f[1] * shape[1]))]
+            accel = float(np.round(rng.uniform(1.05, max(1.1, 0.8 / (f[0] * f[1]))), 3))
+        P.add("poisson", shape=shape, accel=accel, calib=calib,
               tol=pick(rng, [0.05, 0.1, 0.1, 0.5]),
               seed=int(pick(rng, [0, 0, 1, int(rng.integers(0, 1000)),
                                   int(rng.integers(0, 1000)), int(rng.integers(0, 2 ** 31))])),
@@ -172,8 +178,13 @@ def run_case(case):
         ay = np.maximum(np.abs(yy - ny / 2) - cy / 2, 0)
         r = np.sqrt((ax / ax.max()) ** 2 + (ay / ay.max()) ** 2)
         checks += 1
-        if np.any(m & (r >= 1)):
-            k = np.argwhere(m & (r >= 1))[0]
+        # the points of the calibration block are required by the clause above; when the block
+        # reaches the border of the grid its outermost line sits at r == 1 (the block is
+        # filled with integer bounds, r is measured from the un-rounded half-width)
+        outside = m & (r >= 1)
+        outside[y0:y0 + cy, x0:x0 + cx] = False
+        if np.any(outside):
+            k = np.argwhere(outside)[0]
             return violated(sig, "sample at %s lies at normalised radius %.4f >= 1 with "
                             "crop_corner on" % (tuple(k), r[tuple(k)]), wit, mech="corner")
     # reproducibility (depends only on arguments and seed), under another prior state
